@@ -215,17 +215,26 @@ def _check_set(cell, names, vm, ctx):
         # the dtype may be passed positionally, like numpy.array(object, dtype)
         "array_dtype_pos": lambda: vector.array(list(zip(*[cols[n] for n in names])), [(n, numpy.float64) for n in names]),
         "arr_alias": lambda: vector.arr(dict(cols)),
+        # one numpy.dtype object used for two calls (the second call must see what the first one saw)
+        "array_dtype_object_reused": lambda: _twice(list(zip(*[cols[n] for n in names])), numpy.dtype([(n, numpy.float64) for n in names])),
+        # an existing structured array as input keeps its own field names
+        "array_from_structured": lambda: _from_structured(cols, names),
         "zip": lambda: vector.zip(dict(cols)),
         "zip_ak": lambda: vector.zip({n: ak.Array(cols[n]) for n in names}),
         "Array": lambda: vector.Array([{n: float(cols[n][i]) for n in names} for i in range(3)]),
         "Array_from_ak": lambda: vector.Array(ak.Array([{n: float(cols[n][i]) for n in names} for i in range(3)])),
         "awk_alias": lambda: vector.awk([{n: float(cols[n][i]) for n in names} for i in range(3)]),
+        # a vector array that grew more fields after it was built goes through the same analysis as fresh records
+        "Array_of_vector_array_plus_fields": lambda: _array_grown(cols, names, subs),
     }
     for cn, f in ctors.items():
         ctx.evaluation()
         try:
             a = f()
             err = None
+        except AssertionError as e:
+            _fail(ctx, cn, names, "input_modified", str(e))
+            return
         except Exception as e:  # noqa: BLE001
             a, err = None, e
         if a is None:
@@ -270,6 +279,46 @@ def _check_set(cell, names, vm, ctx):
                 return
     if nontrivial:
         ctx.nontrivial(key=list(names), sample={"names": list(names), "expected": None if exp is None else [R.sysname(exp[0]), exp[1]]})
+
+
+def _array_grown(cols, names, subs):
+    base = None
+    for sub in sorted(subs, key=len):
+        if len(sub) == 2:
+            base = [n for n in names if n in sub]
+            break
+    if base is None or len(base) == len(names) or any(GEN[n] != n for n in base):
+        # (vector.zip renames momentum-spelled fields to the geometric names, so a base spelled px, py would no longer carry
+        # its flavor in the field names)
+        return vector.Array([{n: float(cols[n][i]) for n in names} for i in range(3)])
+    v0 = vector.zip({n: cols[n] for n in base})
+    for n in names:
+        if n not in base:
+            v0 = ak.with_field(v0, cols[n], n)
+    return vector.Array(v0)
+
+
+def _twice(rows, dt):
+    names_before = dt.names
+    first = vector.array(rows, dtype=dt)
+    second = vector.array(rows, dtype=dt)
+    if dt.names != names_before:
+        raise AssertionError(f"vector.array renamed the fields of the caller's dtype object: {names_before} -> {dt.names}")
+    if type(first) is not type(second) or first.dtype != second.dtype:
+        raise AssertionError(f"two calls with the same dtype object give {type(first).__name__}{first.dtype.names} and "
+                             f"{type(second).__name__}{second.dtype.names}")
+    return second
+
+
+def _from_structured(cols, names):
+    src = numpy.zeros(3, dtype=[(n, numpy.float64) for n in names])
+    for n in names:
+        src[n] = cols[n]
+    before = src.dtype.names
+    out = vector.array(src, dtype=src.dtype)
+    if src.dtype.names != before:
+        raise AssertionError(f"vector.array renamed the fields of the input array: {before} -> {src.dtype.names}")
+    return out
 
 
 def _check_values(cell, case, ctx):
